@@ -113,11 +113,15 @@ func (server *SugarDB) lockCommand(command internal.Command, subCommand internal
 	switch {
 	case slices.Contains(command.Categories, constants.WriteCategory) ||
 		slices.Contains(subCommand.Categories, constants.WriteCategory):
+		verifhook.Point("cmd.lock.wait")
 		server.commandLock.Lock()
+		verifhook.Point("cmd.lock.held")
 		return server.commandLock.Unlock
 	case slices.Contains(command.Categories, constants.ReadCategory) ||
 		slices.Contains(subCommand.Categories, constants.ReadCategory):
+		verifhook.Point("cmd.lock.wait")
 		server.commandLock.RLock()
+		verifhook.Point("cmd.lock.held")
 		return server.commandLock.RUnlock
 	}
 	return func() {}
